@@ -16,6 +16,14 @@
 (* Not in the domain (DESIGN.md section 8): non-minimal length forms, RSV1     *)
 (* with compression negotiated, UTF-8 validity of text payloads, close bodies  *)
 (* of one byte, close code 1014.                                               *)
+(*                                                                             *)
+(* Configuration that must NOT matter: `bufsize` is the size of the read       *)
+(* buffer the application configured (0 = the default).  RFC 6455 knows no     *)
+(* such thing: what is delivered, answered and rejected is a function of the   *)
+(* role, the limit and the frames alone.  No action of the receiver reads      *)
+(* bufsize (only the named deviation CtlNeedsBuffer does); BufferBlind in      *)
+(* MC_WsReaderBuf.tla states the independence on two receivers run in lockstep,*)
+(* NoSpontaneousFailure states its consequence on a single receiver.           *)
 EXTENDS Naturals, Sequences, FiniteSets, LD
 
 CONSTANTS
@@ -26,10 +34,14 @@ CONSTANTS
   Probe(_),         \* role -> frames still sent after the reader failed (stickiness probes)
   AcceptTopBit,     \* named deviation C14/length-top-bit: a 64-bit length with the top bit set is taken as an empty frame
   LimitPerFrame,    \* named deviation C14/limit-per-frame: the limit is compared with the frame, not the message
-  PongEmpty         \* named deviation C14/pong-empty: pongs do not carry the ping's payload
+  PongEmpty,        \* named deviation C14/pong-empty: pongs do not carry the ping's payload
+  BufSizes,         \* read buffer sizes the application may configure; 0 = default
+  CtlNeedsBuffer    \* named deviation C14/control-needs-buffer: a control frame whose payload is longer than the
+                    \* configured read buffer cannot be taken in: the read fails, nothing is answered
 
 VARIABLES
   role, limit,
+  bufsize,     \* configured size of the read buffer (0: default); NO action below reads it
   open,        \* 0: no message in progress; 1 / 2: a fragmented text / binary message is in progress
   accLen,      \* payload bytes of the message in progress so far
   frags,       \* its fragments so far: <<[n, id, big]>> (id names the fill pattern of the payload)
@@ -44,7 +56,7 @@ VARIABLES
   pings,       \* observation: payloads of the pings processed <<[n, id]>>
   fins         \* observation: number of final data frames accepted
 
-vars == <<role, limit, open, accLen, frags, failed, alts, cc, delivered, back, pending, ended, n, pings, fins>>
+vars == <<role, limit, bufsize, open, accLen, frags, failed, alts, cc, delivered, back, pending, ended, n, pings, fins>>
 
 \* ---------------------------------------------------------------- frames
 Lengths(v) == IF v <= 125 THEN [form |-> 7, val |-> v, big |-> "no"]
@@ -134,6 +146,11 @@ Exceeds(f) ==
   /\ IF f.len.big # "no" /\ ~(TopBit(f) /\ AcceptTopBit) THEN TRUE
      ELSE (IF LimitPerFrame THEN 0 ELSE accLen) + EffLen(f) > limit
 
+\* named deviation C14/control-needs-buffer: the payload of a control frame (<= 125 bytes, so a legal frame) is
+\* demanded in one piece from a buffer of the configured size
+BufCap      == IF bufsize = 0 THEN 4096 ELSE bufsize
+BufShort(f) == CtlNeedsBuffer /\ IsControl(f.op) /\ EffLen(f) > BufCap
+
 CloseBroken(f) == f.op = 8 /\ f.body.code # 0 /\ (~ValidCloseCode(f.body.code) \/ ~Utf8Ok(f.body.reason))
 
 \* The classes of outcome the property allows when frame f arrives in the current state.
@@ -155,7 +172,7 @@ Pong(l, id) == [t |-> "pong", code |-> 0, n |-> l, id |-> id]       \* 5.5.3: id
 
 \* ---------------------------------------------------------------- actions
 Init ==
-  /\ role \in Roles /\ limit \in Limits
+  /\ role \in Roles /\ limit \in Limits /\ bufsize \in BufSizes
   /\ open = 0 /\ accLen = 0 /\ frags = <<>>
   /\ failed = "no" /\ alts = {} /\ cc = 0
   /\ delivered = <<>> /\ back = <<>>
@@ -166,6 +183,11 @@ Fail(class, allowed, frame) ==
   /\ failed' = class /\ alts' = allowed
   /\ back' = Append(back, frame)
   /\ UNCHANGED <<open, accLen, frags, cc, delivered, pending, pings, fins>>
+
+\* (deviation only) the frame cannot be taken in: the reader gives up without a word
+FailSilent(class, allowed) ==
+  /\ failed' = class /\ alts' = allowed
+  /\ UNCHANGED <<open, accLen, frags, cc, delivered, back, pending, pings, fins>>
 
 DataFrame(f, id) ==
   LET typ == IF f.op = 0 THEN open ELSE f.op
@@ -197,6 +219,7 @@ CloseFrame(f) ==   \* header rules and body rules hold
 Judge(f, id) ==
   IF HeaderBroken(f)        THEN Fail("protocol", Classes(f), Close1002)
   ELSE IF Exceeds(f)        THEN Fail("limit", Classes(f), Close1009)
+  ELSE IF BufShort(f)       THEN FailSilent("io", {"io"})
   ELSE IF IsData(f.op)      THEN DataFrame(f, id)
   ELSE IF f.op = 9          THEN PingFrame(f, id)
   ELSE IF f.op = 10         THEN UNCHANGED <<open, accLen, frags, failed, alts, cc, delivered, back, pending, pings, fins>>
@@ -206,7 +229,7 @@ Judge(f, id) ==
 Frame(f) ==
   /\ ~ended /\ n < MaxFrames
   /\ n' = n + 1
-  /\ UNCHANGED <<role, limit, ended>>
+  /\ UNCHANGED <<role, limit, bufsize, ended>>
   /\ IF failed # "no" \/ pending
      THEN \* after a failure nothing is read any more; inside a giant frame everything is payload
           UNCHANGED <<open, accLen, frags, failed, alts, cc, delivered, back, pending, pings, fins>>
@@ -216,7 +239,7 @@ Frame(f) ==
 CutBoundary ==
   /\ ~ended /\ ended' = TRUE
   /\ IF failed = "no" THEN failed' = "io" /\ alts' = {"io"} ELSE UNCHANGED <<failed, alts>>
-  /\ UNCHANGED <<role, limit, open, accLen, frags, cc, delivered, back, pending, n, pings, fins>>
+  /\ UNCHANGED <<role, limit, bufsize, open, accLen, frags, cc, delivered, back, pending, n, pings, fins>>
 
 \* Classes of outcome when the stream ends somewhere inside frame f (header or payload): an i/o error,
 \* or the failure the frame causes anyway if the receiver already saw enough of it. Never a delivery, never a pong.
@@ -231,7 +254,7 @@ CutIn(f) ==
      ELSE \E c \in CutClasses(f) :
             /\ failed' = (IF c = "length" THEN "protocol" ELSE c) /\ alts' = CutClasses(f)
             /\ back' = (CASE c = "io" -> back [] c = "limit" -> Append(back, Close1009) [] OTHER -> Append(back, Close1002))
-  /\ UNCHANGED <<role, limit, open, accLen, frags, cc, delivered, pending, pings, fins>>
+  /\ UNCHANGED <<role, limit, bufsize, open, accLen, frags, cc, delivered, pending, pings, fins>>
 
 \* what the peer may send next: anything of its alphabet while the reader works, the probes afterwards
 Sendable == IF failed # "no" \/ pending THEN Probe(role) ELSE Alpha(role, limit)
@@ -249,6 +272,7 @@ TypeOk ==
   /\ (open = 0) => (accLen = 0 /\ frags = <<>>)
   /\ (failed = "no") <=> (alts = {})
   /\ (cc # 0) <=> (failed = "close")
+  /\ bufsize \in BufSizes
 
 \* after the first failure nothing more is delivered, nothing more is written, the failure stays
 Sticky == [][failed # "no" => (failed' = failed /\ delivered' = delivered /\ back' = back /\ cc' = cc)]_vars
@@ -282,4 +306,11 @@ Whole ==
   /\ accLen = Sum(frags)
   /\ ended => failed # "no"
 CutDeliversNothing == [][ended' => delivered' = delivered]_vars
+
+\* the receiver fails only for a reason the PEER gave: a rule broken, the limit exceeded, a close frame, or the end
+\* of the byte stream. While the stream goes on, an i/o failure cannot arise from the receiver's own configuration
+\* (buffer sizes): "delivers exactly the messages a conformant receiver would, up to the first rule violation".
+NoSpontaneousFailure == failed = "io" => ended
+\* the observable outcome; BufferBlind (MC_WsReaderBuf.tla): two receivers that differ in bufsize only agree on it
+Observable == <<open, accLen, frags, failed, alts, cc, delivered, back, pending, ended, n, pings, fins>>
 =============================================================================
